@@ -57,6 +57,8 @@ func checkC09(w *World, r *Report) {
 	r.rule("C09.rmw", "swap! is a compare-and-set retry loop: value and version are read in one critical section, the update function is applied outside any lock, and the result is installed in a write-locked section only if the version still equals the one read; a failed comparison retries, and the retry loop polls the context")
 	r.rule("C09.version", "every store to Atom.Val of a shared atom is accompanied, in the same function, by an increment of Atom.version (otherwise a concurrent swap! cannot notice the update and overwrites it)")
 	guardRule(w, r, e, "C09.guard", w.guardRows()[0])
+	derefSourceRule(w, r, e, "C09.deref-source")
+	identityObjectsRule(w, r, "C09.one-object", "Atom")
 	// "swap! ... installs and returns the result": swap!, reset! and deref reach programs through the binder's
 	// adapter closures, which must hand back what the operation returned
 	r.include("C09.builtin-", "C20.", "what swap!, reset! and deref return to the program is what the operation returned: a completed update is not reported as a failure", checkC20, func(rule string) bool {
@@ -668,11 +670,13 @@ func checkC10(w *World, r *Report) {
 	r.check(derived, "C10.ctx", newFuture, "context of the body", applies[0].Pos(), "context.With*(creator's ctx)", "the body does not run under a context derived from its creator's context")
 	// CancelFunc field holds that cancel function
 	storedCancel := false
-	for _, b := range newFuture.Blocks {
-		for _, in := range b.Instrs {
-			if st, ok := in.(*ssa.Store); ok {
-				if fa, ok := st.Addr.(*ssa.FieldAddr); ok && fieldName(fa.X.Type(), fa.Field) == "CancelFunc" && cancelFnVal != nil && st.Val == cancelFnVal {
-					storedCancel = true
+	for _, sf := range w.pkgFuncs("lib/concurrent") {
+		for _, b := range sf.Blocks {
+			for _, in := range b.Instrs {
+				if st, ok := in.(*ssa.Store); ok {
+					if fa, ok := st.Addr.(*ssa.FieldAddr); ok && fieldName(fa.X.Type(), fa.Field) == "CancelFunc" && cancelFnVal != nil && w.arrivesAs(st.Val, cancelFnVal, 0) {
+						storedCancel = true
+					}
 				}
 			}
 		}
@@ -794,6 +798,8 @@ func checkC10(w *World, r *Report) {
 	r.floor("C10.deliver", "exits of the body goroutine", nd, 1)
 	singleOutcomeRule(w, r, e, "C10.single-outcome")
 	doneFlagRule(w, r, e, "C10.done-flag")
+	cancelFlagRule(w, r, "C10.cancel-flag")
+	identityObjectsRule(w, r, "C10.one-object", "Future")
 	derefContextRule(w, r, "C10.deref-context")
 	r.rule("C10.body-context", "every evaluation the library starts runs under the context its function was given or a child of it - never under a fresh one, never under one captured from an enclosing activation in its place: the body of a future runs under the very context that future-cancel cancels, and a deref reached from any form (a finally body included) waits under the context of the evaluation that contains it (shared with C07.derive)")
 	if m10 := newEvalModel(w, e); m10.ok {
@@ -1089,6 +1095,16 @@ func checkC11(w *World, r *Report) {
 	// computes alone (the library's memoize, gensym and counters rest on it)
 	r.include("C11.atom-", "C09.", "an evaluation that updates a shared atom with swap! gets f(current, args...) also when it has to retry", checkC09, func(rule string) bool {
 		return rule == "C09.rmw" || rule == "C09.install" || rule == "C09.version" || rule == "C09.guard"
+	})
+	// "each evaluation that only reads shared globals ... returns exactly what it returns alone": the values the
+	// globals hold are shared by all evaluations, so no builtin may write into a value it was handed
+	r.include("C11.value-", "C02.", "a value bound to a shared global is never written by an evaluation that only reads it: builtins write only into storage they allocated", checkC02, func(rule string) bool {
+		return rule == "C02.write" || rule == "C02.copyrecv"
+	})
+	// "every global definition is seen either entirely or not at all": a defining form binds its name once, to
+	// the finished value
+	r.include("C11.definition-", "C12.", "defmacro binds its name exactly once, to the marked closure: no other evaluation finds the name bound to an unfinished value", checkC12, func(rule string) bool {
+		return rule == "C12.defmacro-once"
 	})
 	r.rule("C11.no-reentry", "no function of package env acquires a scope's mutex while it already holds it, or calls with the lock held a function that locks the same scope (sync.RWMutex is not re-entrant even for readers: concurrent evaluations on the shared environment would block each other forever)")
 	nre := reentryRule(w, r, e, "C11.no-reentry", w.pkgFuncs("env"))
@@ -1938,4 +1954,151 @@ func allocatesResult(fn *ssa.Function) bool {
 		n++
 	}
 	return n > 0
+}
+
+// identityObjectsRule: atoms and futures are objects with identity: programs hold references to one object,
+// whose lock, channels, flags and value are that object's alone. They are allocated only by their own
+// package; a second object built elsewhere from the parts of an existing one (a "copy with new metadata")
+// shares the outcome slots or the value but not the flags and the lock that go with them.
+func identityObjectsRule(w *World, r *Report, rule string, typeNames ...string) {
+	r.rule(rule, "values of the reference types of lib/concurrent ("+strings.Join(typeNames, ", ")+") are allocated only inside that package (by their constructors): no other package builds one, from scratch or from the fields of an existing one, so every reference to an atom or future refers to the one object with its one lock, its one set of flags and its one set of outcome slots")
+	want := map[string]bool{}
+	for _, n := range typeNames {
+		want[n] = true
+	}
+	n := 0
+	for _, fn := range w.Funcs {
+		if isTestFunc(w, fn) || !inModule(fn) {
+			continue
+		}
+		for _, b := range fn.Blocks {
+			for _, in := range b.Instrs {
+				al, ok := in.(*ssa.Alloc)
+				if !ok {
+					continue
+				}
+				pr, name, ok := w.namedStruct(al.Type())
+				if !ok || pr != "lib/concurrent" || !want[name] {
+					continue
+				}
+				n++
+				r.check(strings.HasSuffix(fnPkgPath(fn), "/lib/concurrent"), rule, fn, "allocation of a "+name, al.Pos(), "inside lib/concurrent", "a "+name+" is built outside its package: it is a second object beside the one programs already refer to - what is done to one (cancel, completion, an update) does not show on the other")
+			}
+		}
+	}
+	r.floor(rule, "allocations of "+strings.Join(typeNames, "/"), n, 1)
+}
+
+// cancelFlagRule: future-cancelled? is true only after future-cancel: the flag is raised only in a function
+// that calls the future's cancel function under the same critical section - not by the body goroutine, which
+// cannot tell a cancel from a deadline of its creator.
+func cancelFlagRule(w *World, r *Report, rule string) {
+	r.rule(rule, "the Cancelled flag of a future is assigned only in a function that also calls that future's cancel function (Cancel): the body goroutine and the readers never raise it, so future-cancelled? is true only for a future that was cancelled with future-cancel")
+	n := 0
+	for _, fn := range w.Funcs {
+		if isTestFunc(w, fn) || !inModule(fn) {
+			continue
+		}
+		for _, b := range fn.Blocks {
+			for _, in := range b.Instrs {
+				st, ok := in.(*ssa.Store)
+				if !ok {
+					continue
+				}
+				fa, ok := st.Addr.(*ssa.FieldAddr)
+				if !ok || fieldName(fa.X.Type(), fa.Field) != "Cancelled" {
+					continue
+				}
+				if _, name, ok := w.namedStruct(fa.X.Type()); !ok || name != "Future" {
+					continue
+				}
+				if _, fresh := fa.X.(*ssa.Alloc); fresh {
+					continue
+				}
+				n++
+				calls := false
+				for _, b2 := range fn.Blocks {
+					for _, in2 := range b2.Instrs {
+						c, ok := in2.(*ssa.Call)
+						if !ok || c.Call.IsInvoke() || c.Call.StaticCallee() != nil {
+							continue
+						}
+						if ld, ok := c.Call.Value.(*ssa.UnOp); ok {
+							if cfa, ok := ld.X.(*ssa.FieldAddr); ok && cfa.X == fa.X && strings.Contains(cfa.Type().String(), "context.CancelFunc") {
+								calls = true
+							}
+						}
+					}
+				}
+				r.check(calls, rule, fn, "store to Cancelled", st.Pos(), "in the function that calls the future's cancel function", "the flag is raised by "+w.fnName(fn)+", which does not cancel the future: a future that was never cancelled (its creator's deadline passed, its body failed) answers true to future-cancelled?, and a later future-cancel reports success")
+			}
+		}
+	}
+	r.floor(rule, "stores to Future.Cancelled", n, 1)
+}
+
+// derefSourceRule: deref answers with the value installed in the atom: what (*Atom).Deref returns is the Val
+// field of its receiver read under the atom's lock (directly or through a method of the atom that returns it),
+// not a copy kept somewhere else that an update could miss.
+func derefSourceRule(w *World, r *Report, e *Engine, rule string) {
+	r.rule(rule, "every value (*Atom).Deref returns is the Val field of its receiver, loaded there or handed back by a method of the atom that loads it: there is no second place an atom's value is kept (a snapshot, a cache) that an update could fail to reach")
+	df := w.Fn("lib/concurrent", "(*Atom).Deref")
+	if df == nil {
+		r.undecided(rule, nil, "(*Atom).Deref", token.NoPos, "method no longer resolves")
+		return
+	}
+	var isVal func(v ssa.Value, fn *ssa.Function, depth int) bool
+	isVal = func(v ssa.Value, fn *ssa.Function, depth int) bool {
+		if depth > 4 {
+			return false
+		}
+		switch x := v.(type) {
+		case *ssa.UnOp:
+			if fa, ok := x.X.(*ssa.FieldAddr); ok && x.Op == token.MUL && fieldName(fa.X.Type(), fa.Field) == "Val" && fa.X == ssa.Value(fn.Params[0]) {
+				return true
+			}
+		case *ssa.Extract:
+			if c, ok := x.Tuple.(*ssa.Call); ok && x.Index == 0 {
+				return isVal(c, fn, depth)
+			}
+		case *ssa.Call:
+			callee := x.Call.StaticCallee()
+			if callee == nil || callee.Signature.Recv() == nil || len(x.Call.Args) == 0 || x.Call.Args[0] != ssa.Value(fn.Params[0]) || len(callee.Blocks) == 0 {
+				return false
+			}
+			n := 0
+			for _, b := range callee.Blocks {
+				if b == callee.Recover {
+					continue
+				}
+				if ret, ok := b.Instrs[len(b.Instrs)-1].(*ssa.Return); ok && len(ret.Results) > 0 {
+					n++
+					if !isVal(resolveRet(ret.Results[0]), callee, depth+1) {
+						return false
+					}
+				}
+			}
+			return n > 0
+		case *ssa.Phi:
+			for _, ed := range x.Edges {
+				if !isVal(ed, fn, depth+1) {
+					return false
+				}
+			}
+			return len(x.Edges) > 0
+		}
+		return false
+	}
+	n := 0
+	for _, rt := range errorReturns(df) {
+		ret := rt[0].(*ssa.Return)
+		v, _ := rt[1].(ssa.Value)
+		ev, _ := rt[2].(ssa.Value)
+		if v == nil || (ev != nil && !isNilConst(ev)) {
+			continue
+		}
+		n++
+		r.check(isVal(v, df, 0), rule, df, "value returned by deref", ret.Pos(), "the receiver's Val", "deref answers with "+describeVal(e, v, 0)+", not with the atom's value field: a value kept beside the atom (published without the lock, or refreshed late) can be older than what reset! or swap! already returned")
+	}
+	r.floor(rule, "successful returns of (*Atom).Deref", n, 1)
 }
